@@ -107,14 +107,21 @@ EXTRA = {
     "C05": [("cli", ["--scripts=150", "--len=90", "--long=1"], ["--scripts=8000", "--len=100", "--long=1"], "cli-long")],
     "C06": [("srv", ["--scripts=150", "--len=90", "--long=1"], ["--scripts=8000", "--len=110", "--long=1"], "srv-long")],
     "C11": [("cli", ["--scripts=100", "--len=90", "--long=1"], ["--scripts=4000", "--len=100", "--long=1"], "cli-long")],
+    # boundary-valued deadlines and ids, with a formatting (sub=1) and an OpenTelemetry (sub=2) tracing subscriber installed
+    "C16": [(side, ["--scripts=120", "--len=70", "--extreme=1", f"--sub={sub}"], ["--scripts=6000", "--len=90", "--extreme=1", f"--sub={sub}"],
+             f"{side}-extreme-sub{sub}") for side in ("cli", "srv") for sub in (0, 1, 2)],
 }
+
+# families judged by the monitors only for the time being (projection = op lines): the models do not yet carry the
+# timer clamp of fix 8f28306, so their observations differ on far-away deadlines
+MONITOR_ONLY = {"C16"}
 
 
 def families(prop, sides=("cli", "srv")):
     fams = []
     for side, q, t, tag in EXTRA.get(prop, []):
         if side in sides:
-            proj = (CLI_PROJ if side == "cli" else SRV_PROJ)[prop]
+            proj = [] if prop in MONITOR_ONLY else (CLI_PROJ if side == "cli" else SRV_PROJ)[prop]
             nt = (CLI_NONTRIVIAL if side == "cli" else SRV_NONTRIVIAL)[prop]
             f = trace.Family(side, q, t, project=projector(proj), nontrivial=nt,
                              rule=f"{side} scripts with {' '.join(q[2:])}: as the plain family plus boundary / long-range values "
